@@ -217,6 +217,7 @@ class Interp:
         self.world = world
         self.guard_level = guard_level
         self.body_seq = 0
+        self.events = set()
         self.probe_groups = []      # parallel to world.probes: body instance
 
     # -- token stream with the end-of-line rule ---------------------------
@@ -508,14 +509,22 @@ class Interp:
             raise
         except Exception as exc:
             handler = None
+            could = 0
             for h in n['handlers']:
                 names = h['names']
                 if not names or any(self.matches(type(exc), nm)
                                     for nm in names):
-                    handler = h
-                    break
+                    could += 1
+                    if handler is None:
+                        handler = h
             if handler is None:
                 raise
+            self.events.add('handled')
+            if could >= 2:
+                self.events.add('several-handlers-match')
+            if handler['names'] and type(exc).__name__ not in \
+                    handler['names']:
+                self.events.add('matched-through-base-class')
             err = dict(error_type=type(exc).__name__, error_value=exc,
                        error_tb='(traceback)')
             ns.push(('map', err))
@@ -544,7 +553,10 @@ class Interp:
                 if not (isinstance(t, type) and issubclass(t, Exception)):
                     raise Unspecified('raise of an unknown type name')
         else:
-            t = self.ref(ref, ns)
+            try:
+                t = self.ref(ref, ns)
+            except Exception:
+                raise Unspecified('the exception class cannot be computed')
             if not (isinstance(t, type) and issubclass(t, Exception)):
                 raise Unspecified('raise of a non-class')
         msg = self.body(n['body'], ns)
